@@ -5,7 +5,7 @@ Models: `Model/Liveness.lean` (internal/cgen/liveness.go), `Model/LivenessSem.le
 abstract statement language), `Model/Scratch.lean` (the scratch-word machines of
 internal/cgen/builtin.go and the chunk driver). Helper lemmas: `Proof/Liveness*.lean`.
 -/
-import WuffsVerif.Proof.LivenessSound
+import WuffsVerif.Proof.LivenessTop
 import WuffsVerif.Gen.C05_Tables
 
 namespace WuffsVerif.Props.C05
@@ -23,5 +23,58 @@ number of times, other coroutine call re-issued after every suspension). -/
 theorem doExpr_segment {n : Nat} (v : Nat) (hv : v < n) (r : Lv n) (e : Ex) (es : List Ev)
     (h : ExprPath e es) : Seg v es (r.get v) ((doExpr r e).get v) :=
   Seg.doExpr v r hv e h
+
+/-- `fixLoop` — the iteration of `doWhile`, total by Lean's termination checker — returns a
+fixed point: one more pass from the returned slices (and the analysis state `σi` the last pass
+started from) changes nothing. -/
+theorem liveness_terminates {n : Nat} (step : Loop n → St n → Loop n × St n) (l : Loop n) (σ : St n) :
+    ∃ σi, (fixLoop step l σ).1.join (step (fixLoop step l σ).1 σi).1 = (fixLoop step l σ).1 ∧
+      (fixLoop step l σ).2 = (step (fixLoop step l σ).1 σi).2 := by
+  obtain ⟨σi, _, h1, h2⟩ := fixLoop_spec step (fun _ _ => True) (fun _ _ _ => trivial) l σ trivial
+  exact ⟨σi, h1, h2⟩
+
+/-- **liveness_sound.** For every abstract program `body` with `n` locals, every variable `v`
+that the analysis leaves non-resumable (`findVars … ≠ strong`, i.e. `varResumables[v] = false`),
+and every path `es` through the body — complete, or cut at any loop head, so every finite
+prefix of a non-terminating run counts — every read of `v` on the path that comes after a
+suspension has a write of `v` between that suspension and the read. -/
+theorem liveness_sound (n : Nat) (body : List Stmt) (v : Nat) (hv : v < n)
+    (hnr : (findVars n body).get v ≠ Lness.strong)
+    (es : List Ev) (o : Out) (hp : blockPaths body es o)
+    (pre post : List Ev) (hes : es = pre ++ Ev.rd v :: post)
+    (a b : List Ev) (hpre : pre = a ++ Ev.susp :: b) : Ev.wr v ∈ b := by
+  have h := findVars_sound n body v hv hnr es o hp
+  cases hm : decide (Ev.wr v ∈ b) with
+  | true => simpa using hm
+  | false =>
+    exfalso
+    have hnb : Ev.wr v ∉ b := by simpa using hm
+    have : viol v false es = true :=
+      (viol_spec v es false).mpr ⟨pre, post, hes, (taint_spec v pre false).mpr (Or.inr ⟨a, b, hpre, hnb⟩)⟩
+    rw [h] at this
+    cases this
+
+/-- The same, for the list the driver prints. -/
+theorem liveness_sound_resumables (n : Nat) (body : List Stmt) (v : Nat) (hv : v < n)
+    (hnr : v ∉ resumables n body) (es : List Ev) (o : Out) (hp : blockPaths body es o) :
+    viol v false es = false := by
+  apply findVars_sound n body v hv _ es o hp
+  intro hs
+  apply hnr
+  simp [resumables, hv, hs]
+
+/-- non-vacuity: `x = read?; y = read?; write?(x); while true { yield }` — the probe that the
+unrepaired `doWhile` got wrong (`x` was judged non-resumable). With the repair both are saved. -/
+example : resumables 2
+    [.var 0, .var 1, .assign .eq (.var 0) ⟨true, true, []⟩, .assign .eq (.var 1) ⟨true, true, []⟩,
+     .assign .eq .none ⟨true, true, [0]⟩, .assign .eq .none ⟨true, true, [1]⟩,
+     .while true ⟨false, false, []⟩ [.ret true ⟨false, false, []⟩]] = [0, 1] := by decide +kernel
+
+/-- non-vacuity: a variable whose uses all lie between two consecutive suspension points is not
+saved (`j` of the comment at the top of liveness.go), and a path with a read after a suspension
+does exist for the saved one. -/
+example : resumables 2
+    [.assign .eq (.var 0) ⟨false, false, []⟩, .ret true ⟨false, false, []⟩,
+     .assign .eq (.var 1) ⟨false, false, [0]⟩, .assign .eq .none ⟨true, true, [1]⟩] = [0] := by decide +kernel
 
 end WuffsVerif.Props.C05
